@@ -5,7 +5,7 @@
 //! (`FileOptionsExt::with_deprecated_encryption`, `by_index_decrypt`, `by_index`, `by_name`).
 //! The oracle uses its own PKWARE implementation (`pk`, written from APPNOTE 6.1 with a CRC table
 //! computed from the polynomial) and, for a few cases per run, CPython `zipfile` / Info-ZIP `unzip`;
-//! `zc.foreign` lets Info-ZIP `zip` (and libarchive `bsdtar` when present) produce the archive.
+//! `zc.fentry` carries an archive produced by Info-ZIP `zip` (and libarchive `bsdtar` when present).
 use super::{GenOut, OracleFailure, Stream};
 use crate::prng::Rng;
 use crate::util::*;
@@ -213,8 +213,93 @@ struct Arch {
     plain_data: Vec<u8>,
 }
 
+const METHODS: [&str; 4] = ["stored", "deflated", "bzip2", "zstd"];
+
+fn mnum(m: &str) -> Option<u16> {
+    match m { "stored" => Some(0), "deflated" => Some(8), "bzip2" => Some(12), "zstd" => Some(93), _ => None }
+}
+
 fn method_of(m: &str) -> zip::CompressionMethod {
-    if m == "stored" { zip::CompressionMethod::Stored } else { zip::CompressionMethod::Deflated }
+    match m {
+        "stored" => zip::CompressionMethod::Stored,
+        "deflated" => zip::CompressionMethod::Deflated,
+        "bzip2" => zip::CompressionMethod::Bzip2,
+        _ => zip::CompressionMethod::Zstd,
+    }
+}
+
+/// The writer's default level per method (what `FileOptions::default()` compresses with).
+fn default_level(m: u16) -> i32 { match m { 8 => 6, 12 => 6, 93 => 3, _ => 0 } }
+
+/// What the compressor hands to the encryption layer for one `write_all(data)`: the codec library
+/// called directly (not through the crate); the content itself for Stored.
+fn compress_direct(m: u16, data: &[u8]) -> Option<Vec<u8>> {
+    if m == 0 { Some(data.to_vec()) } else { super::write::direct_compress(m, default_level(m), &[data.to_vec()]) }
+}
+
+/// One row of the codec table the model's decoder parameter is instantiated with.
+fn codec_row(m: u16, raw: &[u8]) -> String {
+    let c = pk::crc32(raw);
+    let r = catch({ let raw = raw.to_vec(); move || super::read::direct_decode(m, &raw) });
+    match r {
+        Ok(Ok(d)) => format!("{m}:{c}:{}:ok:{}", raw.len(), hex(&d)),
+        Ok(Err(e)) => format!("{m}:{c}:{}:err:{}", raw.len(), super::read::cls_io(&e).trim_start_matches("err:")),
+        Err(_) => format!("{m}:{c}:{}:err:io:other", raw.len()),
+    }
+}
+
+/// The non-encrypted neighbour entries of `build_arch`: (method, content).
+fn plain_entry(j: usize) -> (u16, Vec<u8>) {
+    (if j % 2 == 0 { 0 } else { 8 }, format!("plain entry number {j} {}", "x".repeat(j * 7)).into_bytes())
+}
+
+/// The complete `zc.arch` op line: the inputs plus the parameters the model needs (compressor output,
+/// codec table rows for every byte string a decoder can be handed: the real payload, what a wrong
+/// password that passes the check byte decrypts it to, the plain neighbour's data).
+fn arch_line(pw: &[u8], m: &str, cnt: usize, pos: usize, data: &[u8], wrong: &[u8], x: &str) -> Option<String> {
+    let mn = mnum(m)?;
+    let n = cnt.max(2);
+    let pos_eff = pos % n;
+    let plain_idx = (pos_eff + 1) % n;
+    let (pm, pdata) = plain_entry(plain_idx);
+    let praw = compress_direct(pm, &pdata)?;
+    let comp = compress_direct(mn, data)?;
+    let mut rows: Vec<String> = vec![];
+    if mn != 0 { rows.push(codec_row(mn, &comp)); }
+    if pm != 0 { rows.push(codec_row(pm, &praw)); }
+    if mn != 0 {
+        let crc = pk::crc32(data);
+        let mut plain = vec![0u8; 11];
+        plain.push((crc >> 24) as u8);
+        plain.extend_from_slice(&comp);
+        let ct = pk::Keys::new(pw).encrypt(&plain);
+        let d = pk::Keys::new(wrong).decrypt(&ct);
+        if d[11] == (crc >> 24) as u8 {
+            let row = codec_row(mn, &d[12..]);
+            if !rows.contains(&row) { rows.push(row); }
+        }
+    }
+    Some(format!(
+        "zc.arch pw={} m={m} n={cnt} pos={pos} data={} wrong={} comp={} codec={} pm={pm} praw={} pdata={}{x}",
+        hex(pw), hex(data), hex(wrong), if mn == 0 { "-".to_string() } else { hex(&comp) },
+        if rows.is_empty() { "-".to_string() } else { rows.join(";") }, hex(&praw), hex(&pdata)
+    ))
+}
+
+/// Minimal central-directory walk of a one-entry archive of another producer (no crate code):
+/// (flags, method, DOS time, CRC-32, stored bytes) of entry 0.
+fn foreign_fields(z: &[u8]) -> Option<(u16, u16, u16, u32, Vec<u8>)> {
+    let rd16 = |o: usize| -> Option<usize> { Some(u16::from_le_bytes([*z.get(o)?, *z.get(o + 1)?]) as usize) };
+    let rd32 = |o: usize| -> Option<u32> { Some(u32::from_le_bytes([*z.get(o)?, *z.get(o + 1)?, *z.get(o + 2)?, *z.get(o + 3)?])) };
+    let mut e = z.len().checked_sub(22)?;
+    while rd32(e)? != 0x06054b50 { e = e.checked_sub(1)?; }
+    let p = rd32(e + 16)? as usize;
+    if rd32(p)? != 0x02014b50 { return None; }
+    let (flag, method, time, crc, cs) = (rd16(p + 8)? as u16, rd16(p + 10)? as u16, rd16(p + 12)? as u16, rd32(p + 16)?, rd32(p + 20)? as usize);
+    let lo = rd32(p + 42)? as usize;
+    if rd32(lo)? != 0x04034b50 { return None; }
+    let ds = lo + 30 + rd16(lo + 26)? + rd16(lo + 28)?;
+    Some((flag, method, time, crc, z.get(ds..ds + cs)?.to_vec()))
 }
 
 /// Archive with `n` entries written by the crate; entry `pos` ("enc") is encrypted with `pw`.
@@ -235,9 +320,9 @@ fn build_arch(pw: &[u8], m: &str, n: usize, pos: usize, data: &[u8]) -> Result<A
             w.start_file(enc_name(pos), o).map_err(|e| zerr_class(&e))?;
             w.write_all(data).map_err(|e| ioerr_class(&e))?;
         } else {
-            let o = base.compression_method(if j % 2 == 0 { zip::CompressionMethod::Stored } else { zip::CompressionMethod::Deflated });
+            let (pm, d) = plain_entry(j);
+            let o = base.compression_method(if pm == 0 { zip::CompressionMethod::Stored } else { zip::CompressionMethod::Deflated });
             w.start_file(format!("p{j}"), o).map_err(|e| zerr_class(&e))?;
-            let d = format!("plain entry number {j} {}", "x".repeat(j * 7)).into_bytes();
             w.write_all(&d).map_err(|e| ioerr_class(&e))?;
             if j == plain_idx {
                 plain_data = d;
@@ -394,10 +479,13 @@ impl Stream for Zc {
                   validators, all 256 check bytes via chosen CRC / DOS time values, wrong passwords (random and searched to pass \
                   the 1-byte check), inputs of 0..12 bytes, inner readers returning 1/3/7 bytes per read; zc.entry (one in six through an archive reader returning 1/2/5 bytes per read): hand-built \
                   single-entry archives over {no password, right, wrong, wrong-but-passing} x encrypted flag x data-descriptor \
-                  flag x right/wrong declared CRC; zc.arch: archives written by the crate (Stored/Deflated, 2-4 entries, \
-                  encrypted entry at every position) then read back with right / no / wrong password, a few cross-read by \
-                  CPython zipfile and Info-ZIP unzip; zc.foreign: archives produced by Info-ZIP zip (file and streamed input) \
-                  and libarchive bsdtar when installed. distinct = distinct op lines; non-trivial = response is not an error".into();
+                  flag x right/wrong declared CRC; zc.arch: archives written by the crate (Stored/Deflated/Bzip2/Zstd, 2-4 entries, \
+                  encrypted entry at every position) then read back with right / no / wrong password and with the password on a \
+                  plain neighbour; the line carries the compressor's output and the codec table (direct library calls) from which \
+                  the model WRITER builds the stored bytes and the model READER answers all four readings; a few cross-read by \
+                  CPython zipfile and Info-ZIP unzip; zc.fentry: archives produced at generation time by Info-ZIP zip (file and \
+                  streamed input) and libarchive bsdtar when installed, with flags / CRC / DOS time / method / stored bytes from an \
+                  independent central-directory walk for the model reader. distinct = distinct op lines; non-trivial = response is not an error".into();
         let mut r = super::rng_for(seed, "zc", 0);
         let pws = passwords(&mut r);
         let scale = if thorough { 20 } else { 1 };
@@ -541,21 +629,25 @@ impl Stream for Zc {
             };
             let mut x = String::new();
             let ascii = pw.iter().all(|b| (0x21..0x7f).contains(b)) && !pw.is_empty();
-            if have_py && !pw.is_empty() && n_py < 12 && r.chance(1, 3) { x = " x=py".into(); n_py += 1; }
-            else if have_unzip && ascii && n_unzip < 8 { x = " x=unzip".into(); n_unzip += 1; }
-            g.push(&format!("arch.{m}"), format!("zc.arch pw={} m={m} n={cnt} pos={pos} data={} wrong={}{x}", hex(pw), hex(&data), hex(&wrong)));
+            // the other consumers are asked for the methods every build of them supports
+            let common = m == "stored" || m == "deflated";
+            if common && have_py && !pw.is_empty() && n_py < 12 && r.chance(1, 3) { x = " x=py".into(); n_py += 1; }
+            else if common && have_unzip && ascii && n_unzip < 8 { x = " x=unzip".into(); n_unzip += 1; }
+            if let Some(l) = arch_line(pw, m, cnt as usize, pos as usize, &data, &wrong, &x) {
+                g.push(&format!("arch.{m}"), l);
+            }
         };
         for (_, pw) in &pws {
             for &n in &SIZES {
-                for m in ["stored", "deflated"] {
+                for m in METHODS {
                     arch_case(&mut g, &mut r, pw, m, n);
                 }
             }
         }
-        for _ in 0..60 * scale {
+        for _ in 0..80 * scale {
             let pw = if r.chance(1, 2) { b"Secret123".to_vec() } else { r.pick(&pws).1.clone() };
             let n = big(&mut r);
-            let m = *r.pick(&["stored", "deflated"]);
+            let m = *r.pick(&METHODS);
             arch_case(&mut g, &mut r, &pw, m, n);
         }
 
@@ -570,7 +662,23 @@ impl Stream for Zc {
                 let m = if r.chance(1, 2) { 0 } else { 8 };
                 // modification time: any second of 2000-2030, so that every DOS-time high byte occurs
                 let mt = 946_684_800 + r.below(946_000_000);
-                g.push(&format!("foreign.{prod}"), format!("zc.foreign prod={prod} pw={} m={m} mt={mt} data={}", hex(pw.as_bytes()), hex(&data)));
+                // the other producer runs NOW (its header bytes are random): the op line carries its archive, and what
+                // an independent central-directory walk finds in it, so that the case replays and the model can answer
+                match foreign_archive(prod, pw, m, mt, &data) {
+                    Ok(arch) => match foreign_fields(&arch) {
+                        Some((flag, fm, time, crc, raw)) => {
+                            let (enc, dd) = (flag & 1, (flag >> 3) & 1);
+                            let codec = if fm == 0 || raw.len() < 12 || enc == 0 { "-".to_string() } else {
+                                codec_row(fm, &pk::Keys::new(pw.as_bytes()).decrypt(&raw)[12..])
+                            };
+                            g.push(&format!("foreign.{prod}.m{fm}{}", if dd == 1 { ".dd" } else { "" }), format!(
+                                "zc.fentry prod={prod} pw={} data={} arch={} enc={enc} dd={dd} crc={crc} time={time} m={fm} raw={} codec={codec}",
+                                hex(pw.as_bytes()), hex(&data), hex(&arch), hex(&raw)));
+                        }
+                        None => g.push("foreign.unparsed", format!("zc.fentry-unparsed prod={prod} arch={}", hex(&arch))),
+                    },
+                    Err(_) => g.push("foreign.toolfail", format!("zc.fentry-toolfail prod={prod}")),
+                }
             }
         }
         g
@@ -634,12 +742,12 @@ impl Stream for Zc {
             "zc.arch" => {
                 let (pw, data, wrong, cnt, pos) = match (h("pw"), h("data"), h("wrong"), n("n"), n("pos")) {
                     (Some(p), Some(d), Some(w), Some(c), Some(q)) => (p, d, w, c as usize, q as usize), _ => return "bad-op".into() };
-                let m = match a.get("m").map(|s| s.as_str()) { Some("stored") => "stored", Some("deflated") => "deflated", _ => return "bad-op".into() };
+                let m = match a.get("m").and_then(|s| METHODS.iter().find(|x| **x == s.as_str())) { Some(x) => *x, None => return "bad-op".into() };
                 let r = catch(move || {
                     let ar = match build_arch(&pw, m, cnt, pos, &data) { Ok(x) => x, Err(e) => return format!("write {e}") };
                     let raw = match raw_of(&ar.bytes, ar.pos) { Ok(x) => x, Err(e) => return format!("raw {e}") };
                     let hdr = hex(&raw[..raw.len().min(12)]);
-                    let ct = if m == "stored" { hex(&raw) } else { "*".to_string() };
+                    let ct = hex(&raw);
                     let right = same_or(open_and_read(&ar.bytes, ar.pos, Some(&pw)), &data);
                     let nopw = {
                         let a1 = match open_and_read(&ar.bytes, ar.pos, None) { Ok(_) => "opened".to_string(), Err(e) => e };
@@ -651,21 +759,22 @@ impl Stream for Zc {
                         if a1 == a2 { a1 } else { format!("mismatch({a1}|{a2})") }
                     };
                     let wr = open_and_read(&ar.bytes, ar.pos, Some(&wrong));
-                    let wrong_s = if m == "stored" { same_or(wr, &data) } else {
-                        match wr { Err(e) if e == "invalidpw" => e, _ => "pass".to_string() }
-                    };
+                    let wrong_s = same_or(wr, &data);
                     let plainpw = same_or(open_and_read(&ar.bytes, ar.plain_idx, Some(&pw)), &ar.plain_data);
                     format!("arch hdr={hdr} ct={ct} right={right} nopw={nopw} wrong={wrong_s} plainpw={plainpw}")
                 });
                 r.unwrap_or_else(|_| "panic".into())
             }
-            "zc.foreign" => {
-                let (pw, data, m, mt) = match (h("pw"), h("data"), n("m"), n("mt")) { (Some(p), Some(d), Some(m), Some(t)) => (p, d, m, t), _ => return "bad-op".into() };
-                let prod = a.get("prod").cloned().unwrap_or_default();
-                let pws = String::from_utf8_lossy(&pw).to_string();
-                let arch = match foreign_archive(&prod, &pws, m, mt, &data) { Ok(x) => x, Err(e) => return format!("tool-failed {}", e.replace('\n', " ")) };
+            "zc.fentry" => {
+                let (pw, arch) = match (h("pw"), h("arch")) { (Some(p), Some(x)) => (p, x), _ => return "bad-op".into() };
                 let r = catch(move || outcome(open_and_read(&arch, 0, Some(&pw))));
                 r.unwrap_or_else(|_| "panic".into())
+            }
+            // maintenance only (never generated): complete a hand-written zc.arch line with the model's parameters
+            "zc.mkline" => {
+                let (pw, data, wrong, cnt, pos) = match (h("pw"), h("data"), h("wrong"), n("n"), n("pos")) {
+                    (Some(p), Some(d), Some(w), Some(c), Some(q)) => (p, d, w, c as usize, q as usize), _ => return "bad-op".into() };
+                arch_line(&pw, a.get("m").map(|s| s.as_str()).unwrap_or(""), cnt, pos, &data, &wrong, "").unwrap_or_else(|| "bad-op".into())
             }
             _ => "bad-op".into(),
         }
@@ -758,7 +867,7 @@ impl Stream for Zc {
                 }
                 let ar = match build_arch(&pw, &m, n("n") as usize, n("pos") as usize, &data) { Ok(x) => x, Err(e) => { fail(format!("writer failed: {e}")); return f; } };
                 let raw = match raw_of(&ar.bytes, ar.pos) { Ok(x) => x, Err(e) => { fail(format!("raw bytes: {e}")); return f; } };
-                if (resp.contains(" wrong=diff ") || resp.contains(" wrong=pass ")) && wrong != pw {
+                if resp.contains(" wrong=diff ") && wrong != pw {
                     match open_and_read(&ar.bytes, ar.pos, Some(&wrong)) {
                         Ok(d) if d != data => fail(judge_wrong_completed(&raw, &wrong, pk::crc32(&data), &d)),
                         Ok(_) if resp.contains(" wrong=diff ") => fail("wrong=diff is not reproducible: the same read now returns the original bytes".into()),
@@ -771,13 +880,13 @@ impl Stream for Zc {
                     fail("independent decryption of the stored bytes does not show the header (11 zero bytes, crc>>24)".into());
                 } else {
                     let payload = &plain[12..];
-                    let content = if m == "stored" { payload.to_vec() } else {
-                        let mut out = vec![];
-                        let _ = flate2::read::DeflateDecoder::new(payload).read_to_end(&mut out);
-                        out
+                    let content = match mnum(&m) {
+                        Some(0) => payload.to_vec(),
+                        Some(mn) => super::read::direct_decode(mn, payload).unwrap_or_default(),
+                        None => vec![],
                     };
                     if content != data {
-                        fail("independent decryption (+ inflate) of the stored bytes does not give the content".into());
+                        fail("independent decryption (+ the codec library called directly) of the stored bytes does not give the content".into());
                     }
                 }
                 if m == "stored" && data.len() >= 16 && data.iter().any(|&b| b != data[0]) && contains(&ar.bytes, &data[..16]) {
@@ -791,7 +900,7 @@ impl Stream for Zc {
                     }
                 }
             }
-            "zc.foreign" => {
+            "zc.fentry" => {
                 let want = format!("ok {}", hex(&h("data")));
                 if resp != want {
                     fail(format!("entry encrypted by {} is not decrypted to its content: `{}`", a.get("prod").cloned().unwrap_or_default(), &resp[..resp.len().min(120)]));
